@@ -13,6 +13,9 @@ F_ = A.B(False)
 T_ = A.B(True)
 
 
+LAST_TABLE = {}
+
+
 def parse_shape(s):
     """shape grammar of spec/gate.json -> abstract TypeName value"""
     s = s.strip()
@@ -203,6 +206,8 @@ def run(ck, facts):
                         ck.bad("R5", key, "the gate panics for %s in position %s (%s) where the documentation says %s: %s" % (shape, pos, got, exp, [o.notes for o in outs if o.ctl == "panic"][:1]))
                     else:
                         ck.bad("R1", key, "gate verdict for `%s` as %s is %s, the documentation says %s (%s) %s" % (shape, pos, got, want, row.get("why", ""), msgs))
+    global LAST_TABLE
+    LAST_TABLE = table
     if n_cells < 300:
         ck.bad("R1", "cells-floor", "only %d cells judged" % n_cells)
     ck.note("gate table: %d cells judged over %d shapes x 5 positions x %d support profiles" % (n_cells, len(spec), len(profiles)))
